@@ -257,7 +257,9 @@ Proof.
   destruct (sget (JObj f0) "enum") as [[]|]; kill H.
   destruct (sget (JObj f0) "required"); kill H. destruct (sget (JObj f0) "properties"); kill H.
   destruct (sget (JObj f0) "items"); kill H.
-  apply str_eqb_spec in H. subst s. reflexivity.
+  apply str_eqb_spec in H. subst s.
+  cbn [vnf n_ref n_anyof n_type n_enum n_req n_props n_items v_ref v_anyof v_type v_enum v_obj v_items andb].
+  change (jtype_ok (lit "string") (JStr x)) with true. now rewrite !andb_true_r.
 Qed.
 
 Lemma step_array f root sch xs :
@@ -272,7 +274,9 @@ Proof.
   destruct (sget (JObj f0) "enum"); kill H.
   destruct (sget (JObj f0) "required"); kill H. destruct (sget (JObj f0) "properties"); kill H.
   destruct (sget (JObj f0) "items"); kill H.
-  apply str_eqb_spec in H. subst s. reflexivity.
+  apply str_eqb_spec in H. subst s.
+  cbn [vnf n_ref n_anyof n_type n_enum n_req n_props n_items v_ref v_anyof v_type v_enum v_obj v_items andb].
+  change (jtype_ok (lit "array") (JList xs)) with true. reflexivity.
 Qed.
 
 Lemma step_obj f root sch flds :
@@ -288,5 +292,666 @@ Proof.
   destruct (sget (JObj f0) "required") as [[]|]; kill H;
     destruct (sget (JObj f0) "properties") as [[]|]; kill H;
     destruct (sget (JObj f0) "items"); kill H;
-    apply str_eqb_spec in H; subst s; reflexivity.
+    apply str_eqb_spec in H; subst s;
+    cbn [vnf n_ref n_anyof n_type n_enum n_req n_props n_items v_ref v_anyof v_type v_enum v_obj v_items andb];
+    change (jtype_ok (lit "object") (JObj flds)) with true; rewrite ?andb_true_r; reflexivity.
 Qed.
+
+(* ------------------------------------------------------------------ *)
+(* 4. validity with at least n units of fuel                            *)
+
+Definition Vge (n : nat) (sch v : json) : Prop :=
+  forall f, (n <= f)%nat -> validate f ROOT sch v = true.
+
+Lemma Vge_mono n m sch v : (n <= m)%nat -> Vge n sch v -> Vge m sch v.
+Proof. intros L H f Hf. apply H. lia. Qed.
+
+Lemma Vge_ref N n sch v : is_ref sch N = true -> Vge n (sdef N) v -> Vge (S n) sch v.
+Proof.
+  intros R H f Hf. destruct f as [|f]; [lia|]. rewrite (step_ref N) by exact R. apply H. lia.
+Qed.
+
+Lemma Vge_anyof i n sch v :
+  is_anyof sch = true -> (i <? length (salts sch))%nat = true -> Vge n (salt sch i) v ->
+  Vge (S n) sch v.
+Proof.
+  intros A L H f Hf. destruct f as [|f]; [lia|]. rewrite step_anyof by exact A.
+  apply existsb_exists. exists (salt sch i). split.
+  - unfold salt. apply nth_In. now apply Nat.ltb_lt.
+  - apply H. lia.
+Qed.
+
+Lemma Vge_type t n sch v : is_type sch t = true -> jtype_ok (lit t) v = true -> Vge (S n) sch v.
+Proof.
+  intros T J f Hf. destruct f as [|f]; [lia|]. now rewrite (step_type t) by exact T.
+Qed.
+
+Lemma Vge_enum n sch x : is_enum sch = true -> enum_ok (senum sch) x = true -> Vge (S n) sch (JStr x).
+Proof.
+  intros T J f Hf. destruct f as [|f]; [lia|]. now rewrite step_enum by exact T.
+Qed.
+
+Lemma Vge_array n sch xs :
+  is_array sch = true -> Forall (Vge n (sitems sch)) xs -> Vge (S n) sch (JList xs).
+Proof.
+  intros A H f Hf. destruct f as [|f]; [lia|]. rewrite step_array by exact A.
+  apply forallb_forall. intros x Hx. rewrite Forall_forall in H. apply H; [exact Hx | lia].
+Qed.
+
+Lemma Vge_array_map {A} n sch (g : A -> json) l :
+  is_array sch = true -> Forall (fun x => Vge n (sitems sch) (g x)) l ->
+  Vge (S n) sch (JList (map g l)).
+Proof.
+  intros Ar H. apply Vge_array; [exact Ar|]. apply Forall_forall. intros j Hj.
+  apply in_map_iff in Hj as (x & <- & Hx). rewrite Forall_forall in H. now apply H.
+Qed.
+
+(* objects: every field that is present obeys the property schemas of its key *)
+Definition field_ok (f : nat) (root : json) (props : list (str * json)) (k : str) (x : json) : bool :=
+  forallb (fun kp : str * json => if str_eqb k (fst kp) then validate f root (snd kp) x else true) props.
+
+Lemma jget_In flds : forall k x, jget flds k = Some x ->
+  exists k', In (k', x) flds /\ str_eqb k' k = true.
+Proof.
+  induction flds as [|[k0 v0] r IH]; intros k x H; [discriminate H|]. cbn [jget] in H.
+  destruct (str_eqb k0 k) eqn:E.
+  - injection H as <-. exists k0. split; [now left | exact E].
+  - destruct (IH _ _ H) as (k' & I & E'). exists k'. split; [now right | exact E'].
+Qed.
+
+Lemma props_ok_fields f root props flds :
+  Forall (fun kx => field_ok f root props (fst kx) (snd kx) = true) flds ->
+  props_ok f root props flds = true.
+Proof.
+  intros H. rewrite Forall_forall in H. apply forallb_forall. intros kp Hkp.
+  destruct (jget flds (fst kp)) as [x|] eqn:E; [|reflexivity].
+  destruct (jget_In _ _ _ E) as (k' & I & E').
+  specialize (H _ I). cbn [fst snd] in H. unfold field_ok in H. rewrite forallb_forall in H.
+  specialize (H _ Hkp). cbv beta in H. now rewrite E' in H.
+Qed.
+
+Lemma field_ok_filter f root props k x :
+  field_ok f root props k x =
+  forallb (fun kp => validate f root (snd kp) x) (filter (fun kp => str_eqb k (fst kp)) props).
+Proof.
+  unfold field_ok. induction props as [|kp r IH]; [reflexivity|]. cbn [forallb filter].
+  destruct (str_eqb k (fst kp)); cbn [forallb]; now rewrite IH.
+Qed.
+
+Definition Fge (n : nat) (sch : json) (kx : str * json) : Prop :=
+  forall f, (n <= f)%nat -> field_ok f ROOT (sprops sch) (fst kx) (snd kx) = true.
+
+Lemma Fge_prop nm n sch x : uniq_prop sch nm = true -> Vge n (sprop sch nm) x -> Fge n sch (lit nm, x).
+Proof.
+  intros U H f Hf. cbn [fst snd]. rewrite field_ok_filter. unfold uniq_prop, sprop, pfilter in *.
+  destruct (filter _ (sprops sch)) as [|kp [|? ?]]; try discriminate U.
+  cbn [forallb]. rewrite andb_true_r. now apply H.
+Qed.
+
+Lemma Fge_none nm n sch x : no_prop sch nm = true -> Fge n sch (lit nm, x).
+Proof.
+  intros U f Hf. cbn [fst snd]. rewrite field_ok_filter. unfold no_prop, pfilter in *.
+  destruct (filter _ (sprops sch)); [reflexivity | discriminate U].
+Qed.
+
+Definition req_keys (req : list json) (keys : list str) : bool :=
+  forallb (fun k => match k with JStr nm => existsb (fun k' => str_eqb k' nm) keys | _ => false end) req.
+
+Lemma jget_key flds nm :
+  existsb (fun k' => str_eqb k' nm) (map fst flds) = true -> jget flds nm <> None.
+Proof.
+  induction flds as [|[k v] r IH]; cbn [map fst existsb jget]; [discriminate|].
+  destruct (str_eqb k nm); [discriminate | exact IH].
+Qed.
+
+Lemma req_ok_pre req pre rest : req_keys req (map fst pre) = true -> req_ok req (pre ++ rest) = true.
+Proof.
+  unfold req_keys, req_ok. apply forallb_impl. intros [ | | | |nm| | ]; try discriminate.
+  intros E. assert (K : jget (pre ++ rest) nm <> None).
+  { apply jget_key. rewrite map_app, existsb_app, E. reflexivity. }
+  now destruct (jget (pre ++ rest) nm).
+Qed.
+
+Lemma Vge_obj n sch flds :
+  is_obj sch = true -> req_ok (sreq sch) flds = true -> Forall (Fge n sch) flds ->
+  Vge (S n) sch (JObj flds).
+Proof.
+  intros O R H f Hf. destruct f as [|f]; [lia|]. rewrite step_obj by exact O. rewrite R.
+  apply props_ok_fields. eapply Forall_impl; [|exact H]. intros kx K. apply K. lia.
+Qed.
+
+(* hidden-default fields *)
+Lemma Forall_opt_field {A} (P : str * json -> Prop) n (g : A -> json) o :
+  (forall x, o = Some x -> P (lit n, g x)) -> Forall P (opt_field n g o).
+Proof. intros H. destruct o; cbn; auto. Qed.
+Lemma Forall_list_field {A} (P : str * json -> Prop) n (g : A -> json) l :
+  P (lit n, JList (map g l)) -> Forall P (list_field n g l).
+Proof. intros H. destruct l; [constructor|]. unfold list_field. auto. Qed.
+Lemma Forall_bool_field (P : str * json -> Prop) n b :
+  P (lit n, JBool true) -> Forall P (bool_field n b).
+Proof. intros H. destruct b; cbn; auto. Qed.
+Lemma Forall_one {A} (P : A -> Prop) x : P x -> Forall P [x].
+Proof. auto. Qed.
+
+(* ------------------------------------------------------------------ *)
+(* 5. leaves                                                            *)
+
+Lemma int_small z : small z = true -> int_to_json z = JInt z.
+Proof.
+  unfold small, int_to_json. intros H. apply andb_true_iff in H as [H1 H2].
+  apply Z.leb_le in H1, H2.
+  replace (z <? MIN_INTEGER) with false by (symmetry; apply Z.ltb_ge; exact H1).
+  replace (z >? MAX_INTEGER) with false; [reflexivity|].
+  symmetry. rewrite Z.gtb_ltb. apply Z.ltb_ge. exact H2.
+Qed.
+
+Lemma V_int n sch z :
+  is_type sch "integer" = true -> small z = true -> Vge (S n) sch (int_to_json z).
+Proof. intros T W. rewrite int_small by exact W. now apply (Vge_type "integer"). Qed.
+
+Lemma V_ints n sch (l : list Z) :
+  is_array sch = true -> is_type (sitems sch) "integer" = true -> forallb small l = true ->
+  Vge (S (S n)) sch (JList (map int_to_json l)).
+Proof.
+  intros Ar T W. apply Vge_array_map; [exact Ar|]. apply Forall_forall. intros z Hz.
+  rewrite forallb_forall in W. apply V_int; auto.
+Qed.
+
+Notation CS := (sdef "ConstantString").
+Notation CN := (sdef "ConstantNumber").
+Notation CV := (sdef "ConstantValue").
+
+Lemma V_CS s n : (3 <= n)%nat -> Vge n CS (str_to_json s).
+Proof.
+  intros L. apply (Vge_mono 3); [exact L|]. unfold str_to_json. destruct (has_surrogate s).
+  - apply (Vge_anyof 1); [vmr|vmr|].
+    apply Vge_obj; [vmr | apply (req_ok_pre _ [_] []); cbn [map fst]; vmr |].
+    apply Forall_one. apply (Fge_prop "string"); [vmr|]. now apply (Vge_type "string"); [vmr|].
+  - apply (Vge_anyof 0); [vmr|vmr|]. now apply (Vge_type "string"); [vmr|].
+Qed.
+
+Lemma V_str s n sch : is_ref sch "ConstantString" = true -> (4 <= n)%nat -> Vge n sch (str_to_json s).
+Proof.
+  intros R L. apply (Vge_mono 4); [exact L|]. apply (Vge_ref "ConstantString"); [exact R|].
+  now apply V_CS.
+Qed.
+
+Lemma V_strs n sch (l : list str) :
+  is_array sch = true -> is_ref (sitems sch) "ConstantString" = true -> (5 <= n)%nat ->
+  Vge n sch (JList (map str_to_json l)).
+Proof.
+  intros Ar R L. apply (Vge_mono 5); [exact L|]. apply Vge_array_map; [exact Ar|].
+  apply Forall_forall. intros s _. now apply V_str.
+Qed.
+
+Lemma V_CN_float b n : (3 <= n)%nat -> Vge n CN (float_to_json b).
+Proof.
+  intros L. apply (Vge_mono 3); [exact L|]. unfold float_to_json.
+  destruct (float_is_inf b); [|destruct (float_is_nan b)].
+  - apply (Vge_anyof 0); [vmr|vmr|].
+    apply Vge_obj; [vmr | apply (req_ok_pre _ [_] []); cbn [map fst]; vmr |].
+    apply Forall_one. apply (Fge_prop "float"); [vmr|].
+    apply Vge_enum; [vmr|]. destruct (b =? 9218868437227405312); vmr.
+  - apply (Vge_anyof 0); [vmr|vmr|].
+    apply Vge_obj; [vmr | apply (req_ok_pre _ [_] []); cbn [map fst]; vmr |].
+    apply Forall_one. apply (Fge_prop "float"); [vmr|].
+    apply Vge_enum; [vmr|]. vmr.
+  - apply (Vge_anyof 2); [vmr|vmr|]. now apply (Vge_type "number"); [vmr|].
+Qed.
+
+Lemma V_CN_int z n : (3 <= n)%nat -> Vge n CN (int_to_json z).
+Proof.
+  intros L. apply (Vge_mono 3); [exact L|]. unfold int_to_json. destruct (_ || _).
+  - apply (Vge_anyof 1); [vmr|vmr|].
+    apply Vge_obj; [vmr | apply (req_ok_pre _ [_] []); cbn [map fst]; vmr |].
+    apply Forall_one. apply (Fge_prop "int"); [vmr|]. now apply (Vge_type "string"); [vmr|].
+  - apply (Vge_anyof 2); [vmr|vmr|]. now apply (Vge_type "number"); [vmr|].
+Qed.
+
+(* ------------------------------------------------------------------ *)
+(* 6. inner constants                                                   *)
+
+Fixpoint idepth (k : iconst) : nat :=
+  match k with
+  | ITuple l | IFrozenset l => S (list_max (map idepth l))
+  | _ => 0
+  end.
+
+Lemma list_max_In {A} (g : A -> nat) l x : In x l -> (g x <= list_max (map g l))%nat.
+Proof.
+  intros H. assert (F : Forall (fun k => (k <= list_max (map g l))%nat) (map g l))
+    by now apply list_max_le.
+  rewrite Forall_forall in F. apply F. now apply in_map.
+Qed.
+
+Theorem iconst_schema_valid : forall k, Vge (5 * idepth k + 8) CV (iconst_to_json k).
+Proof.
+  induction k as [ |b|z|f|r i|s|b| |l IH|l IH] using iconst_ind'; cbn [iconst_to_json idepth].
+  - apply (Vge_mono 2); [lia|]. apply (Vge_anyof 1); [vmr|vmr|]. now apply (Vge_type "null"); [vmr|].
+  - apply (Vge_mono 2); [lia|]. apply (Vge_anyof 0); [vmr|vmr|]. now apply (Vge_type "boolean"); [vmr|].
+  - apply (Vge_mono 5); [lia|]. apply (Vge_anyof 3); [vmr|vmr|].
+    apply (Vge_ref "ConstantNumber"); [vmr|]. now apply V_CN_int.
+  - apply (Vge_mono 5); [lia|]. apply (Vge_anyof 3); [vmr|vmr|].
+    apply (Vge_ref "ConstantNumber"); [vmr|]. now apply V_CN_float.
+  - apply (Vge_mono 7); [lia|]. apply (Vge_anyof 5); [vmr|vmr|].
+    apply (Vge_ref "ConstantComplex"); [vmr|].
+    apply Vge_obj; [vmr | apply (req_ok_pre _ [_; _] []); cbn [map fst]; vmr |].
+    repeat apply Forall_cons; [| |constructor].
+    + apply (Fge_prop "real"); [vmr|]. apply (Vge_ref "ConstantNumber"); [vmr|]. now apply V_CN_float.
+    + apply (Fge_prop "imag"); [vmr|]. apply (Vge_ref "ConstantNumber"); [vmr|]. now apply V_CN_float.
+  - apply (Vge_mono 5); [lia|]. apply (Vge_anyof 2); [vmr|vmr|]. now apply V_str; [vmr|].
+  - apply (Vge_mono 4); [lia|]. apply (Vge_anyof 8); [vmr|vmr|].
+    apply (Vge_ref "ConstantBytes"); [vmr|].
+    apply Vge_obj; [vmr | apply (req_ok_pre _ [_] []); cbn [map fst]; vmr |].
+    apply Forall_one. apply (Fge_prop "bytes"); [vmr|]. now apply (Vge_type "string"); [vmr|].
+  - apply (Vge_mono 4); [lia|]. apply (Vge_anyof 4); [vmr|vmr|].
+    apply (Vge_ref "ConstantEllipsis"); [vmr|].
+    apply Vge_obj; [vmr | apply (req_ok_pre _ [_] []); cbn [map fst]; vmr |].
+    apply Forall_one. apply (Fge_prop "type"); [vmr|]. apply Vge_enum; [vmr|]. vmr.
+  - apply (Vge_mono (4 + (5 * list_max (map idepth l) + 8))); [lia|].
+    apply (Vge_anyof 7); [vmr|vmr|]. apply (Vge_ref "ConstantTuple"); [vmr|].
+    apply Vge_array_map; [vmr|]. apply Forall_forall. intros x Hx.
+    apply (Vge_ref "ConstantValue"); [vmr|]. rewrite Forall_forall in IH.
+    eapply Vge_mono; [|apply IH; exact Hx]. pose proof (list_max_In idepth l x Hx). lia.
+  - apply (Vge_mono (5 + (5 * list_max (map idepth l) + 8))); [lia|].
+    apply (Vge_anyof 6); [vmr|vmr|]. apply (Vge_ref "ConstantFrozenset"); [vmr|].
+    apply Vge_obj; [vmr | apply (req_ok_pre _ [_] []); cbn [map fst]; vmr |].
+    apply Forall_one. apply (Fge_prop "frozenset"); [vmr|].
+    apply Vge_array_map; [vmr|]. apply Forall_forall. intros x Hx.
+    apply (Vge_ref "ConstantValue"); [vmr|]. rewrite Forall_forall in IH.
+    eapply Vge_mono; [|apply IH; exact Hx]. pose proof (list_max_In idepth l x Hx). lia.
+Qed.
+
+Corollary iconst_schema_valid_fuel k :
+  validate (5 * idepth k + 8) ROOT CV (iconst_to_json k) = true.
+Proof. now apply iconst_schema_valid. Qed.
+
+(* ------------------------------------------------------------------ *)
+(* 7. fields of the data classes                                        *)
+
+Lemma Fge_mono n m sch kx : (n <= m)%nat -> Fge n sch kx -> Fge m sch kx.
+Proof. intros L H f Hf. apply H. lia. Qed.
+
+Lemma Fge_int nm n sch z :
+  uniq_prop sch nm = true -> is_type (sprop sch nm) "integer" = true -> small z = true ->
+  (1 <= n)%nat -> Fge n sch (lit nm, int_to_json z).
+Proof.
+  intros U T W L. apply (Fge_mono 1); [exact L|]. apply (Fge_prop nm); [exact U|]. now apply V_int.
+Qed.
+
+Lemma Fge_opt_int nm n sch o :
+  uniq_prop sch nm = true -> is_type (sprop sch nm) "integer" = true -> small_opt o = true ->
+  (1 <= n)%nat -> Forall (Fge n sch) (opt_field nm int_to_json o).
+Proof.
+  intros U T W L. apply Forall_opt_field. intros x ->. now apply Fge_int.
+Qed.
+
+Lemma Fge_ints nm n sch l :
+  uniq_prop sch nm = true -> is_array (sprop sch nm) = true ->
+  is_type (sitems (sprop sch nm)) "integer" = true -> forallb small l = true ->
+  (2 <= n)%nat -> Forall (Fge n sch) (list_field nm int_to_json l).
+Proof.
+  intros U A T W L. apply Forall_list_field. apply (Fge_mono 2); [exact L|].
+  apply (Fge_prop nm); [exact U|]. now apply V_ints.
+Qed.
+
+Lemma Fge_str nm n sch s :
+  uniq_prop sch nm = true -> is_ref (sprop sch nm) "ConstantString" = true ->
+  (4 <= n)%nat -> Fge n sch (lit nm, str_to_json s).
+Proof. intros U R L. apply (Fge_prop nm); [exact U|]. now apply V_str. Qed.
+
+Lemma Fge_opt_str nm n sch o :
+  uniq_prop sch nm = true -> is_ref (sprop sch nm) "ConstantString" = true ->
+  (4 <= n)%nat -> Forall (Fge n sch) (opt_field nm str_to_json o).
+Proof. intros U R L. apply Forall_opt_field. intros x _. now apply Fge_str. Qed.
+
+Lemma Fge_strs nm n sch l :
+  uniq_prop sch nm = true -> is_array (sprop sch nm) = true ->
+  is_ref (sitems (sprop sch nm)) "ConstantString" = true ->
+  (5 <= n)%nat -> Forall (Fge n sch) (list_field nm str_to_json l).
+Proof.
+  intros U A R L. apply Forall_list_field. apply (Fge_prop nm); [exact U|]. now apply V_strs.
+Qed.
+
+Lemma Fge_bool nm n sch :
+  uniq_prop sch nm = true -> is_type (sprop sch nm) "boolean" = true ->
+  (1 <= n)%nat -> Fge n sch (lit nm, JBool true).
+Proof.
+  intros U T L. apply (Fge_mono 1); [exact L|]. apply (Fge_prop nm); [exact U|].
+  now apply (Vge_type "boolean").
+Qed.
+
+(* ------------------------------------------------------------------ *)
+(* 8. Args, Function, AdditionalLine                                    *)
+
+Lemma V_Args a n : (6 <= n)%nat -> Vge n (sdef "Args") (args_to_json a).
+Proof.
+  intros L. apply (Vge_mono 6); [exact L|]. unfold args_to_json.
+  apply Vge_obj; [vmr | apply (req_ok_pre _ [] _); cbn [map fst]; vmr |].
+  repeat (apply Forall_app; split).
+  - apply (Fge_strs "positional_only"); [vmr|vmr|vmr|lia].
+  - apply (Fge_strs "positional_or_keyword"); [vmr|vmr|vmr|lia].
+  - apply (Fge_opt_str "var_positional"); [vmr|vmr|lia].
+  - apply (Fge_strs "keyword_only"); [vmr|vmr|vmr|lia].
+  - apply (Fge_opt_str "var_keyword"); [vmr|vmr|lia].
+Qed.
+
+Lemma V_Function fn n : (8 <= n)%nat -> Vge n (sdef "Function") (function_to_json fn).
+Proof.
+  intros L. apply (Vge_mono 8); [exact L|]. unfold function_to_json.
+  apply Vge_obj; [vmr | apply (req_ok_pre _ [] _); cbn [map fst]; vmr |].
+  repeat (apply Forall_app; split).
+  - destruct (args_is_default (fn_args fn)); [constructor|]. apply Forall_one.
+    apply (Fge_prop "args"); [vmr|]. apply (Vge_ref "Args"); [vmr|]. now apply V_Args.
+  - apply (Fge_opt_str "docstring"); [vmr|vmr|lia].
+  - apply Forall_opt_field. intros t _. apply (Fge_prop "type"); [vmr|].
+    apply Vge_enum; [vmr|]. destruct t; vmr.
+Qed.
+
+Lemma V_AdditionalLine al n :
+  small_opt (al_line al) = true -> forallb small (al_offs al) = true ->
+  (3 <= n)%nat -> Vge n (sdef "AdditionalLine") (addline_to_json al).
+Proof.
+  intros W1 W2 L. apply (Vge_mono 3); [exact L|]. unfold addline_to_json.
+  apply Vge_obj; [vmr | apply (req_ok_pre _ [] _); cbn [map fst]; vmr |].
+  apply Forall_cons.
+  - apply (Fge_prop "line"); [vmr|]. destruct (al_line al) as [l|].
+    + cbn [small_opt] in W1. apply (Vge_anyof 0); [vmr|vmr|]. apply V_int; [vmr|exact W1].
+    + apply (Vge_anyof 1); [vmr|vmr|]. now apply (Vge_type "null"); [vmr|].
+  - apply (Fge_ints "additional_offsets"); [vmr|vmr|vmr|exact W2|lia].
+Qed.
+
+(* ------------------------------------------------------------------ *)
+(* 9. nesting depth                                                     *)
+
+Definition arg_depth {C} (cd : C -> nat) (a : arg_ C) : nat :=
+  match a with AConst c _ => cd c | _ => 0%nat end.
+Definition cd_depth_with {C} (cd : C -> nat) (d : code_data_ C) : nat :=
+  Nat.max (list_max (map (fun b => list_max (map (fun i => arg_depth cd (i_arg i)) b)) (cd_blocks d)))
+          (list_max (map (arg_depth cd) (cd_addargs d))).
+Fixpoint cdepth (k : const) : nat :=
+  match k with
+  | KInner i => idepth i
+  | KCode d => S (cd_depth_with cdepth d)
+  end.
+Definition cd_depth : code_data -> nat := cd_depth_with cdepth.
+
+Definition schema_wf (d : code_data) : bool := wfj_cd d.
+Definition schema_fuel (d : code_data) : nat := 12 * cd_depth d + 20.
+
+(* ------------------------------------------------------------------ *)
+(* 10. the argument classes                                             *)
+
+Lemma V_Jump t r n :
+  small t = true -> (2 <= n)%nat ->
+  Vge n (sdef "Jump") (JObj ((lit "target", int_to_json t) :: bool_field "relative" r)).
+Proof.
+  intros W L. apply (Vge_mono 2); [exact L|].
+  apply Vge_obj; [vmr | apply (req_ok_pre _ [_] _); cbn [map fst]; vmr |].
+  apply Forall_cons.
+  - apply (Fge_int "target"); [vmr|vmr|exact W|lia].
+  - apply Forall_bool_field. apply (Fge_bool "relative"); [vmr|vmr|lia].
+Qed.
+
+Lemma V_Name s ov n :
+  small_opt ov = true -> (5 <= n)%nat ->
+  Vge n (sdef "Name") (JObj ((lit "name", str_to_json s) :: opt_field "_index_override" int_to_json ov)).
+Proof.
+  intros W L. apply (Vge_mono 5); [exact L|].
+  apply Vge_obj; [vmr | apply (req_ok_pre _ [_] _); cbn [map fst]; vmr |].
+  apply Forall_cons.
+  - apply (Fge_str "name"); [vmr|vmr|lia].
+  - apply (Fge_opt_int "_index_override"); [vmr|vmr|exact W|lia].
+Qed.
+
+Lemma V_Varname s ov n :
+  small_opt ov = true -> (5 <= n)%nat ->
+  Vge n (sdef "Varname") (JObj ((lit "varname", str_to_json s) :: opt_field "_index_override" int_to_json ov)).
+Proof.
+  intros W L. apply (Vge_mono 5); [exact L|].
+  apply Vge_obj; [vmr | apply (req_ok_pre _ [_] _); cbn [map fst]; vmr |].
+  apply Forall_cons.
+  - apply (Fge_str "varname"); [vmr|vmr|lia].
+  - apply (Fge_opt_int "_index_override"); [vmr|vmr|exact W|lia].
+Qed.
+
+Lemma V_Cellvar s ov n :
+  small_opt ov = true -> (5 <= n)%nat ->
+  Vge n (sdef "Cellvar") (JObj ((lit "cellvar", str_to_json s) :: opt_field "_index_override" int_to_json ov)).
+Proof.
+  intros W L. apply (Vge_mono 5); [exact L|].
+  apply Vge_obj; [vmr | apply (req_ok_pre _ [_] _); cbn [map fst]; vmr |].
+  apply Forall_cons.
+  - apply (Fge_str "cellvar"); [vmr|vmr|lia].
+  - apply (Fge_opt_int "_index_override"); [vmr|vmr|exact W|lia].
+Qed.
+
+Lemma V_Freevar s n :
+  (5 <= n)%nat -> Vge n (sdef "Freevar") (JObj [(lit "freevar", str_to_json s)]).
+Proof.
+  intros L. apply (Vge_mono 5); [exact L|].
+  apply Vge_obj; [vmr | apply (req_ok_pre _ [_] []); cbn [map fst]; vmr |].
+  apply Forall_one. apply (Fge_str "freevar"); [vmr|vmr|lia].
+Qed.
+
+Lemma V_NoArg z n :
+  small z = true -> (2 <= n)%nat ->
+  Vge n (sdef "NoArg") (JObj (if z =? 0 then [] else [(lit "_arg", int_to_json z)])).
+Proof.
+  intros W L. apply (Vge_mono 2); [exact L|].
+  apply Vge_obj; [vmr | apply (req_ok_pre _ [] _); cbn [map fst]; vmr |].
+  destruct (z =? 0); [constructor|]. apply Forall_one.
+  apply (Fge_int "_arg"); [vmr|vmr|exact W|lia].
+Qed.
+
+Lemma V_Constant cv ov m :
+  Vge m CV cv -> small_opt ov = true ->
+  Vge (2 + m) (sdef "Constant") (JObj ((lit "constant", cv) :: opt_field "_index_override" int_to_json ov)).
+Proof.
+  intros H W.
+  apply Vge_obj; [vmr | apply (req_ok_pre _ [] _); cbn [map fst]; vmr |].
+  apply Forall_cons.
+  - apply (Fge_prop "constant"); [vmr|]. apply (Vge_ref "ConstantValue"); [vmr|]. exact H.
+  - apply (Fge_opt_int "_index_override"); [vmr|vmr|exact W|lia].
+Qed.
+
+(* ------------------------------------------------------------------ *)
+(* 11. operands, instructions, CodeData                                 *)
+
+Notation IARG := (sprop (sdef "Instruction") "arg").
+Notation ADDARG := (sitems (sprop (sdef "CodeData") "_additional_args")).
+Notation cj := const_to_json.
+
+Definition G (k : const) : nat := 10 + 12 * cdepth k.
+Definition PV (k : const) : Prop := wfj_const k = true -> Vge (G k) CV (cj k).
+
+Lemma V_const_arg c ov :
+  PV c -> wfj_const c = true -> small_opt ov = true ->
+  Vge (2 + G c) (sdef "Constant")
+      (JObj ((lit "constant", cj c) :: opt_field "_index_override" int_to_json ov)).
+Proof. intros HP W O. apply V_Constant; [now apply HP | exact O]. Qed.
+
+Lemma V_arg a :
+  argP PV a -> wfj_arg wfj_const a = true ->
+  Vge (14 + 12 * arg_depth cdepth a) IARG (arg_to_json cj a).
+Proof.
+  destruct a as [z|t r|s ov|s ov|c ov|s|s ov|z];
+    cbn [argP wfj_arg arg_to_json arg_depth]; intros HP W.
+  - apply (Vge_mono 2); [lia|]. apply (Vge_anyof 7); [vmr|vmr|]. apply V_int; [vmr|exact W].
+  - apply (Vge_mono 4); [lia|]. apply (Vge_anyof 0); [vmr|vmr|].
+    apply (Vge_ref "Jump"); [vmr|]. now apply V_Jump.
+  - apply (Vge_mono 7); [lia|]. apply (Vge_anyof 1); [vmr|vmr|].
+    apply (Vge_ref "Name"); [vmr|]. now apply V_Name.
+  - apply (Vge_mono 7); [lia|]. apply (Vge_anyof 2); [vmr|vmr|].
+    apply (Vge_ref "Varname"); [vmr|]. now apply V_Varname.
+  - apply andb_true_iff in W as [Wc Wo].
+    apply (Vge_mono (2 + (2 + G c))); [unfold G; lia|]. apply (Vge_anyof 3); [vmr|vmr|].
+    apply (Vge_ref "Constant"); [vmr|]. now apply V_const_arg.
+  - apply (Vge_mono 7); [lia|]. apply (Vge_anyof 4); [vmr|vmr|].
+    apply (Vge_ref "Freevar"); [vmr|]. now apply V_Freevar.
+  - apply (Vge_mono 7); [lia|]. apply (Vge_anyof 5); [vmr|vmr|].
+    apply (Vge_ref "Cellvar"); [vmr|]. now apply V_Cellvar.
+  - apply (Vge_mono 4); [lia|]. apply (Vge_anyof 6); [vmr|vmr|].
+    apply (Vge_ref "NoArg"); [vmr|]. now apply V_NoArg.
+Qed.
+
+Lemma V_addarg a :
+  argP PV a -> wfj_addarg wfj_const a = true ->
+  Vge (14 + 12 * arg_depth cdepth a) ADDARG (arg_to_json cj a).
+Proof.
+  unfold wfj_addarg. intros HP W. apply andb_true_iff in W as [W K].
+  destruct a as [z|t r|s ov|s ov|c ov|s|s ov|z]; try discriminate K; clear K;
+    cbn [argP wfj_arg arg_to_json arg_depth] in *.
+  - apply (Vge_mono 7); [lia|]. apply (Vge_anyof 0); [vmr|vmr|].
+    apply (Vge_ref "Name"); [vmr|]. now apply V_Name.
+  - apply (Vge_mono 7); [lia|]. apply (Vge_anyof 1); [vmr|vmr|].
+    apply (Vge_ref "Varname"); [vmr|]. now apply V_Varname.
+  - apply andb_true_iff in W as [Wc Wo].
+    apply (Vge_mono (2 + (2 + G c))); [unfold G; lia|]. apply (Vge_anyof 3); [vmr|vmr|].
+    apply (Vge_ref "Constant"); [vmr|]. now apply V_const_arg.
+  - apply (Vge_mono 7); [lia|]. apply (Vge_anyof 2); [vmr|vmr|].
+    apply (Vge_ref "Cellvar"); [vmr|]. now apply V_Cellvar.
+Qed.
+
+Lemma V_instr i :
+  instrP PV i -> wfj_instr wfj_const i = true ->
+  Vge (15 + 12 * arg_depth cdepth (i_arg i)) (sdef "Instruction") (instr_to_json cj i).
+Proof.
+  intros HP W. unfold wfj_instr in W. rewrite !andb_true_iff in W.
+  destruct W as [[[W1 W2] W3] W4]. unfold instr_to_json.
+  apply Vge_obj; [vmr | apply (req_ok_pre _ [_] _); cbn [map fst]; vmr |].
+  apply Forall_cons; [|repeat (apply Forall_app; split)].
+  - apply (Fge_prop "name"); [vmr|]. now apply (Vge_type "string"); [vmr|].
+  - destruct (arg_is_default (i_arg i)); [constructor|]. apply Forall_one.
+    apply (Fge_prop "arg"); [vmr|]. now apply V_arg.
+  - apply (Fge_opt_int "_n_args_override"); [vmr|vmr|exact W2|lia].
+  - apply (Fge_opt_int "line_number"); [vmr|vmr|exact W3|lia].
+  - apply (Fge_ints "_line_offsets_override"); [vmr|vmr|vmr|exact W4|lia].
+Qed.
+
+Lemma list_max_In2 {A} (g : A -> nat) l x n : In x l -> (list_max (map g l) <= n)%nat -> (g x <= n)%nat.
+Proof. intros H L. pose proof (list_max_In g l x H). lia. Qed.
+
+(* lia without the boolean premises (ZifyBool is loaded by ConstsProofs) *)
+Ltac nlia := repeat match goal with H : _ = true |- _ => clear H end; lia.
+
+Lemma V_cd d :
+  cdP PV d -> wfj_cd d = true ->
+  Vge (19 + 12 * cd_depth d) (sdef "CodeData") (cd_to_json_with cj d).
+Proof.
+  intros [HB HA] W. unfold wfj_cd, wfj_cd_with in W. rewrite !andb_true_iff in W.
+  destruct W as [[[[W1 W2] W3] W4] W5].
+  assert (DB : forall b i, In b (cd_blocks d) -> In i b ->
+                           (arg_depth cdepth (i_arg i) <= cd_depth d)%nat).
+  { intros b i Hb Hi. unfold cd_depth, cd_depth_with.
+    pose proof (list_max_In (fun b => list_max (map (fun i => arg_depth cdepth (i_arg i)) b))
+                  (cd_blocks d) b Hb) as M1. cbv beta in M1.
+    pose proof (list_max_In (fun i => arg_depth cdepth (i_arg i)) b i Hi) as M2. cbv beta in M2.
+    nlia. }
+  assert (DA : forall a, In a (cd_addargs d) -> (arg_depth cdepth a <= cd_depth d)%nat).
+  { intros a Ha. unfold cd_depth, cd_depth_with.
+    pose proof (list_max_In (arg_depth cdepth) (cd_addargs d) a Ha). nlia. }
+  remember (cd_depth d) as D eqn:ED. clear ED.
+  unfold cd_to_json_with.
+  apply Vge_obj; [vmr | apply (req_ok_pre _ [_; _; _; _; _] _); cbn [map fst]; vmr |].
+  repeat (apply Forall_app; split).
+  - repeat apply Forall_cons; [| | | | |constructor].
+    + apply (Fge_prop "blocks"); [vmr|].
+      apply Vge_array_map; [vmr|]. apply Forall_forall. intros b Hb.
+      apply Vge_array_map; [vmr|]. apply Forall_forall. intros i Hi.
+      apply (Vge_ref "Instruction"); [vmr|].
+      rewrite Forall_forall in HB. specialize (HB b Hb). rewrite Forall_forall in HB.
+      rewrite forallb_forall in W1. specialize (W1 b Hb). rewrite forallb_forall in W1.
+      eapply Vge_mono; [|apply V_instr; [apply HB; exact Hi | apply W1; exact Hi]].
+      specialize (DB b i Hb Hi). nlia.
+    + apply (Fge_str "filename"); [vmr|vmr|nlia].
+    + apply (Fge_int "first_line_number"); [vmr|vmr|exact W2|nlia].
+    + apply (Fge_str "name"); [vmr|vmr|nlia].
+    + apply (Fge_int "stacksize"); [vmr|vmr|exact W3|nlia].
+  - apply Forall_opt_field. intros fn _. apply (Fge_prop "type"); [vmr|].
+    apply (Vge_mono 9); [nlia|]. apply (Vge_ref "Function"); [vmr|]. now apply V_Function.
+  - apply (Fge_strs "freevars"); [vmr|vmr|vmr|nlia].
+  - apply Forall_bool_field. apply (Fge_none "future_annotations"). vmr.
+  - apply Forall_bool_field. apply (Fge_bool "_nested"); [vmr|vmr|nlia].
+  - apply Forall_opt_field. intros al E. rewrite E in *. apply andb_true_iff in W4 as [W41 W42].
+    apply (Fge_prop "_additional_line"); [vmr|].
+    apply (Vge_mono 4); [nlia|]. apply (Vge_ref "AdditionalLine"); [vmr|].
+    now apply V_AdditionalLine.
+  - apply Forall_list_field. apply (Fge_prop "_additional_args"); [vmr|].
+    apply Vge_array_map; [vmr|]. apply Forall_forall. intros a Ha.
+    rewrite Forall_forall in HA. rewrite forallb_forall in W5.
+    eapply Vge_mono; [|apply V_addarg; [apply HA; exact Ha | apply W5; exact Ha]].
+    specialize (DA a Ha). nlia.
+Qed.
+
+Lemma PV_all : forall k, PV k.
+Proof.
+  induction k as [i|d IH] using const_ind'; unfold PV, G; cbn [cj wfj_const cdepth]; intros W.
+  - eapply Vge_mono; [|apply iconst_schema_valid]. lia.
+  - apply (Vge_mono (2 + (19 + 12 * cd_depth d))); [unfold cd_depth; lia|].
+    apply (Vge_anyof 9); [vmr|vmr|]. apply (Vge_ref "CodeData"); [vmr|].
+    now apply V_cd.
+Qed.
+
+Theorem const_schema_valid k :
+  wfj_const k = true ->
+  validate (10 + 12 * cdepth k) ROOT CV (const_to_json k) = true.
+Proof. intros W. apply (PV_all k W). unfold G. lia. Qed.
+
+Theorem json_schema_valid : forall d, wfj_cd d = true ->
+  validate (schema_fuel d) SrcSchema.JSON_SCHEMA SrcSchema.JSON_SCHEMA (code_data_to_json d) = true.
+Proof.
+  intros d W.
+  assert (H : Vge (S (19 + 12 * cd_depth d)) ROOT (code_data_to_json d)).
+  { apply (Vge_ref "CodeData"); [vmr|]. apply V_cd; auto. apply cdP_all. exact PV_all. }
+  apply H. unfold schema_fuel. lia.
+Qed.
+
+(* ------------------------------------------------------------------ *)
+(* 12. closed examples                                                  *)
+
+Definition Vtop (f : nat) (d : code_data) : bool :=
+  validate f SrcSchema.JSON_SCHEMA SrcSchema.JSON_SCHEMA (code_data_to_json d).
+
+(* an additional line without a line number ("line": null), formerly rejected, is accepted *)
+Definition witness_no_line : code_data :=
+  mkCD [] [] 0 [] 0 None [] false false (Some (mkAddline None [])) [].
+Example witness_no_line_accepted :
+  wfj_cd witness_no_line && Vtop (schema_fuel witness_no_line) witness_no_line = true.
+Proof. vmr. Qed.
+Example witness_no_line_nested_accepted :
+  let d := mkCD [] [] 0 [] 0 None [] false false None [AConst (KCode witness_no_line) None] in
+  wfj_cd d && Vtop (schema_fuel d) d = true.
+Proof. vmr. Qed.
+
+(* The schema is permissive on operands: Instruction.arg has the alternative NoArg (an object schema
+   that requires nothing and constrains "_arg" only) and Constant has no "required", so every object
+   validates as an operand.  Documents outside wfj_cd that are accepted nevertheless: *)
+Definition with_arg (a : arg) : code_data :=
+  mkCD [[mkInstr 100 a None None []]] [] 0 [] 0 None [] false false None [].
+Definition with_addarg (a : arg) : code_data :=
+  mkCD [] [] 0 [] 0 None [] false false None [a].
+Definition BIG : Z := 2 ^ 60.
+Example permissive_operands :
+  forallb (fun d => negb (wfj_cd d) && Vtop 40 d)
+    [with_arg (AInt BIG); with_arg (AJump BIG false); with_arg (AName [] (Some BIG));
+     with_arg (ANoArg BIG); with_arg (AConst (KInner INone) (Some BIG));
+     with_addarg (AInt BIG); with_addarg (AJump 1 false); with_addarg (AFreevar []);
+     with_addarg (ANoArg 0)] = true.
+Proof. vmr. Qed.
+(* and documents outside wfj_cd that are rejected, with every fuel up to 60 *)
+Example rejected_documents :
+  forallb (fun d => negb (wfj_cd d) && forallb (fun f => negb (Vtop f d)) (seq 0 60))
+    [with_addarg (AInt 1); with_addarg (AName [] (Some BIG));
+     mkCD [] [] BIG [] 0 None [] false false None [];
+     mkCD [] [] 0 [] BIG None [] false false None [];
+     mkCD [[mkInstr 1 (ANoArg 0) (Some BIG) None []]] [] 0 [] 0 None [] false false None [];
+     mkCD [[mkInstr 1 (ANoArg 0) None (Some BIG) []]] [] 0 [] 0 None [] false false None [];
+     mkCD [] [] 0 [] 0 None [] false false (Some (mkAddline (Some BIG) [])) [];
+     mkCD [] [] 0 [] 0 None [] false false (Some (mkAddline (Some 1) [BIG])) []] = true.
+Proof. vmr. Qed.
+
+Print Assumptions validate_mono.
+Print Assumptions iconst_schema_valid.
+Print Assumptions const_schema_valid.
+Print Assumptions json_schema_valid.
